@@ -77,7 +77,7 @@ class Oracle:
                     for t in self.admitted[i]:
                         key = (self.cats[t], i)
                         s = float(self.tag[i, t])
-                        if s > cell.get(key, -math.inf):
+                        if key not in cell or s > cell[key]:
                             cell[key] = s
                 for k in range(i + 1, j):
                     for (lc, lh), ls in chart[(i, k)].items():
@@ -86,7 +86,7 @@ class Oracle:
                                 head, child = (lh, rh) if hl else (rh, lh)
                                 s = ls + rs + float(self.dep[child, head + 1])
                                 key = (cat, head)
-                                if s > cell.get(key, -math.inf):
+                                if key not in cell or s > cell[key]:      # a score of -inf is still a derivation
                                     cell[key] = s
                 if n == 1 or span != n:
                     self._unary_closure_best(cell)
@@ -111,7 +111,7 @@ class Oracle:
                 if steps > 100000:
                     raise Budget('unary closure does not terminate (cyclic unary rules?)')
                 ns = s - self.penalty
-                if ns > cell.get((ucat, head), -math.inf):
+                if (ucat, head) not in cell or ns > cell[(ucat, head)]:
                     cell[(ucat, head)] = ns
                     agenda.append(((ucat, head), ns))
 
